@@ -290,10 +290,10 @@ func (c *Client) Auth(a Auth) error {
 	}
 	c.mutex.Unlock()
 	defer func() {
+		// close the redaction window whatever logAuthData is by now: it may have been switched on while the
+		// exchange was running, and the flag must not outlive the exchange
 		c.mutex.Lock()
-		if !c.logAuthData {
-			c.authIsActive = false
-		}
+		c.authIsActive = false
 		c.mutex.Unlock()
 	}()
 
